@@ -1906,6 +1906,12 @@ func (t *Topic) anotherUserSub(sess *Session, asUid, target types.Uid, asChan bo
 	// Saved subscription does not mean the user is allowed to post/read
 	userData, existingSub := t.perUser[target]
 	if !existingSub || userData.deleted {
+		// A P2P topic cannot have a third participant.
+		if t.cat == types.TopicCatP2P && !existingSub {
+			sess.queueOut(ErrPermissionDeniedReply(pkt, now))
+			return nil, errors.New("cannot invite a third user to a P2P topic")
+		}
+
 		// Check if the max number of subscriptions is already reached.
 		if t.cat == types.TopicCatGrp && t.subsCount() >= globals.maxSubscriberCount {
 			sess.queueOut(ErrPolicyReply(pkt, now))
